@@ -370,6 +370,16 @@ def run_spec(world, spec: dict, keep_dir: bool = False) -> dict:
             elif st == 'died' and world.died_is_outcome(spec, res):
                 merged['status'] = 'done'
                 merged['trace'].append(['DIED', res.get('signal'), res.get('exit')])
+            elif st == 'died' and res.get('signal') in (signal.SIGSEGV, signal.SIGABRT, signal.SIGBUS, signal.SIGFPE,
+                                                        signal.SIGILL) and merged['violation'] is None:
+                # the library (or its engine) killed the process on an operation the property requires to succeed or to
+                # be refused with an exception: that is a verdict on the code, not a problem of the harness (SIGKILL,
+                # time-outs and Python-level failures of the harness stay harness errors)
+                merged['status'] = 'violation'
+                merged['violation'] = {'oracle': f"{spec['property']}.died", 'op': None, 'lifetime': lifetime,
+                                       'fs_event': None,
+                                       'message': f"the process running the session was killed by signal {res.get('signal')} "
+                                                  f"({signal.Signals(res.get('signal')).name}) inside the library or its engine"}
             else:
                 merged['status'] = st
                 if 'error' in res:
